@@ -1,5 +1,6 @@
 """C05 - repair is complete on undamaged archives and monotone in what it is given."""
 from lib.common import *
+from checks.rloop_common import run_rloop
 from checks.repair_common import *
 
 CLAUSES = {"NoPanic", "CompleteOnIntact", "Monotone", "Exact"}
@@ -23,8 +24,8 @@ def main(tier):
         for i, L in enumerate(lens):
             for ent, lvl in (("low", 5), ("high", 1), ("low", 11 if prof == "s20" or L < 100000 else 3)):
                 for sched in ([1], [2, 1], [4096, 1], [1000000]):
-                    if prof == "prod" and L > 100000 and sched in ([1], [2, 1]) and tier == "quick":
-                        continue
+                    if prof == "prod" and L > 100000 and sched in ([1], [2, 1]):
+                        continue       # one decoder event per source byte: millions of events per run
                     for bufs in ([1], [7, 1], [4096], [3, 0, 2]):
                         if prof == "prod" and L > 100000 and bufs != [4096]:
                             continue
@@ -48,6 +49,8 @@ def main(tier):
         for ln in open(tp):
             if '"summary"' in ln:
                 e = _json.loads(ln)
+                if e.get("gave_up"):
+                    raise ToolError(f"compfs harness read budget exhausted: {e}")
                 if not e["prefix"] or (not e["cut"] and e["delivered"] != e["L"]):
                     v.violation(dict(check="compfs-trace", clause="CompleteOnIntactStream" if e["prefix"] else "PrefixOfPlain", profile=prof),
                                 dict(engine="compfs", summary=e))
@@ -65,6 +68,8 @@ def main(tier):
             sid += 1
     traces = run_repair_sweeps(jobs, "s20", "c05")
     validate_repair_traces(v, "C05", traces, ev, CLAUSES)
+    # implementation-level model of the repair loop (spec/RepairLoop.tla): every behaviour replayed on convert_to_archive
+    run_rloop(v, "C05", tier, ev)
     cov = dict(states=sum(t["distinct"] for t in ev["tlc"]) + res.distinct + ev.get("trace_states", 0),
                transitions=sum(t["generated"] for t in ev["tlc"]) + res.generated,
                traces_validated_against_impl=ev.get("traces", 0) + ev.get("decoder_runs", 0), repairs_validated=ev.get("repairs", 0),
@@ -76,4 +81,5 @@ def main(tier):
                     "every cut; TLC checks CompleteOnIntact, Monotone (all pairs through a running maximum) and Exact "
                     "(without compression) on every recorded repair",
                exhaustive=False)
+    cov["repair_loop_model"] = ev.get("rloop")
     return v.finish("model_checking", cov, assumptions=["scaled constants CHUNK=20 BLOCK=48 FS_CACHE=5 REPAIR_CACHE=32"])
